@@ -112,6 +112,16 @@ class C15Machine(Machine):
     def generate(self, rng, tier, index):
         if tier == 'thorough' and index < 4:
             return {'arm': 'example', 'plot': index % 2 == 1, 'hist': index // 2 == 1, 'seed': 3, 'clock': 1600000000 + index}
+        if index == 2:
+            # fixed round-trip case that exercises the three recorded known findings on every run (so that each is
+            # reported as KNOWN-FINDING regardless of the seed) next to ordinary cells
+            return {'arm': 'roundtrip', 'column_width': None, 'read_engine': None, 'sheets': [
+                {'name': 'Samples', 'index': 'ID', 'cols': ['Name', 'Value'],
+                 'ids': ['S1', 'NA', 'S3', None, 'S5'],
+                 'rows': [['abc', 0.5], ['x', 1], ['y', None], ['dropped', 2], ['z', 3.25]]},
+                {'name': 'Beads', 'index': 'ID', 'cols': ['Name', 'Code', 'Value'],
+                 'ids': ['B1', 'B2', 'B3'],
+                 'rows': [['abc', '12', 0.5], ['NA', None, 1], ['n/a', '0.5', None]]}]}
         if index % 3 == 2:
             return self.gen_roundtrip(rng)
         small = tier == 'quick'
